@@ -195,7 +195,8 @@ func lookupTopNode(file *ast.File, name string) ast.Node {
 				}
 			}
 		case *ast.FuncDecl:
-			if d.Name.Name == name {
+			// Methods are not package-level symbols.
+			if d.Recv == nil && d.Name.Name == name {
 				return d
 			}
 		}
